@@ -68,7 +68,7 @@ impl Outcome {
         let _ = std::fs::write(&path, replay_body);
         println!("VIOLATION property={} replay={}", self.prop, path.display());
         println!("  signature: {key}");
-        for l in what.lines().take(30) {
+        for l in what.lines().take(90) {
             println!("  | {l}");
         }
         self.violations.push((key.to_string(), path.clone()));
